@@ -468,3 +468,103 @@ def unary_chains(rng: random.Random, count: int, top: list[str] | None = None) -
         e = f1(f2(f3(rng.choice(leaves)()))) if rng.random() < 0.8 else f1(f2(rng.choice(leaves)()))
         out.append((f"chain:{l1}/{l2}/{l3}", e))
     return out
+
+
+# ----------------------------------------------------------------------------- scale
+
+def scaled(rng: random.Random, count: int) -> list[tuple[str, object]]:
+    """inputs that are large in one dimension: many operands, deep nesting, many variables, the same
+    variable many times, long operator chains, large n — with values kept moderate"""
+    names = ["x", "y", "z", "u", "v", "w", "t"]
+    V = {n: X.Variable(n) for n in names}
+    C = X.Constant
+    out = []
+
+    def small():
+        r = rng.random()
+        v = V[rng.choice(names[: rng.randint(1, 7)])]
+        if r < 0.35:
+            return v
+        if r < 0.5:
+            return C(rng.choice([0.5, 2, -1, 3, 1.5, 0, 1, -0.5]))
+        if r < 0.62:
+            return X.Sine(v)
+        if r < 0.72:
+            return X.Cosine(v)
+        if r < 0.8:
+            return X.Multiply(C(rng.choice([2, 0.5, -1])), v)
+        if r < 0.88:
+            return X.NthPower(v, rng.choice([2, 3]))
+        if r < 0.94:
+            return X.Negation(v)
+        return X.Reciprocal(X.Add(C(2), X.Cosine(v)))
+
+    def bounded(u):
+        """a unary/binary wrapper that keeps magnitudes tame however deep it is stacked"""
+        k = rng.randrange(10)
+        if k == 0:
+            return X.Sine(u)
+        if k == 1:
+            return X.Cosine(u)
+        if k == 2:
+            return X.Add(u, C(rng.choice([1, -0.5, 0.25])))
+        if k == 3:
+            return X.Multiply(C(rng.choice([0.5, -0.5, 0.9])), u)
+        if k == 4:
+            return X.Negation(u)
+        if k == 5:
+            return X.NthRoot(X.Add(X.NthPower(u, 2), C(1)), rng.choice([2, 3, 4]))
+        if k == 6:
+            return X.Reciprocal(X.Add(C(3), X.Sine(u)))
+        if k == 7:
+            return X.Minus(small(), u)
+        if k == 8:
+            return X.Divide(u, X.Add(C(2), X.NthPower(small(), 2)))
+        return X.Logarithm(X.Add(X.NthPower(u, 2), C(2)), base=rng.choice([math.e, 2, 10]))
+
+    for _ in range(count):
+        kind = rng.randrange(8)
+        if kind == 0:       # wide sum / product
+            op = rng.choice([X.Add, X.Multiply])
+            e = op(*[small() for _ in range(rng.randint(6, 14))])
+            tag = "wide"
+        elif kind == 1:     # deep nesting
+            e = small()
+            for _ in range(rng.randint(8, 16)):
+                e = bounded(e)
+            tag = "deep"
+        elif kind == 2:     # long operator chains (nested binary nodes, as written with + and *)
+            e = small()
+            for _ in range(rng.randint(10, 22)):
+                e = (e + small()) if rng.random() < 0.6 else (e * rng.choice([C(0.5), X.Cosine(V["x"]), small()]))
+            tag = "chain"
+        elif kind == 3:     # many variables, each several times
+            k = rng.randint(5, 7)
+            terms = [X.Multiply(V[names[i]], V[names[(i + 1) % k]]) for i in range(k)] + [X.Sine(V[names[i]]) for i in range(k)]
+            rng.shuffle(terms)
+            e = X.Add(*terms)
+            tag = "many-vars"
+        elif kind == 4:     # one variable many times
+            x = V["x"]
+            e = X.Add(*[X.Multiply(C(i % 3 - 1.5), X.NthPower(x, 1 + i % 5)) for i in range(rng.randint(8, 16))])
+            tag = "repeated-var"
+        elif kind == 5:     # large n
+            n = rng.choice([40, 41, 50, 63, 64, 99, 100, 128])
+            inner = X.Add(C(1), X.Multiply(C(0.01), small()))
+            e = rng.choice([X.NthPower(inner, n), X.NthRoot(X.Add(C(2), X.Sine(small())), n),
+                            X.NthPower(X.NthRoot(X.Add(C(2), small()), n + 1), n)])
+            tag = "large-n"
+        elif kind == 6:     # wide node whose operands are nested nodes of the same class (flattening)
+            op = rng.choice([X.Add, X.Multiply])
+            e = op(*[op(small(), small(), op(small(), small())) for _ in range(rng.randint(3, 6))], small())
+            tag = "nested-wide"
+        else:               # products of many powers / exponentials / roots of the same things (consolidation with many groups)
+            fs = []
+            for _ in range(rng.randint(6, 12)):
+                v = V[rng.choice(names[:4])]
+                fs.append(rng.choice([X.NthPower(v, rng.randint(1, 4)), X.Exponential(v, base=rng.choice([math.e, 2, 3])),
+                                      X.NthRoot(X.Add(C(2), X.NthPower(v, 2)), rng.choice([2, 3])), X.Reciprocal(X.Add(C(2), X.Sine(v))), v, C(2)]))
+            e = X.Multiply(*fs) if rng.random() < 0.7 else X.Add(*[X.Logarithm(X.Add(C(2), X.NthPower(f, 2)), base=rng.choice([math.e, 2])) for f in fs])
+            tag = "many-groups"
+        out.append(("scale:" + tag, e))
+    return out
